@@ -10,7 +10,6 @@ use axum::{
 use futures_util::StreamExt;
 use serde::{Deserialize, Serialize};
 use tokio::sync::Mutex;
-use tokio_stream::wrappers::BroadcastStream;
 use utoipa::{OpenApi, ToSchema};
 use utoipa_axum::{router::OpenApiRouter, routes};
 
@@ -32,6 +31,58 @@ use reqwest::Client;
 use std::net::SocketAddr;
 #[cfg(not(test))]
 use tokio::net::TcpListener;
+
+/// The live part of an event stream: frames from the broadcast channel that come after the last
+/// frame of the history snapshot. A receiver that fell behind the channel's buffer does not skip
+/// the frames it lost: every frame is recorded in the stream's history before it is published, so
+/// the history is read again (`reload`) and the missing frames are delivered from there.
+fn live_frames_after<R, Fut>(
+    receiver: tokio::sync::broadcast::Receiver<rip_kernel::Event>,
+    last_seq: Option<u64>,
+    stream_id: Option<String>,
+    reload: R,
+) -> impl futures_util::Stream<Item = Result<SseEvent, Infallible>>
+where
+    R: Fn() -> Fut,
+    Fut: std::future::Future<Output = Vec<rip_kernel::Event>>,
+{
+    use std::collections::VecDeque;
+    use tokio::sync::broadcast::error::RecvError;
+
+    let backlog: VecDeque<rip_kernel::Event> = VecDeque::new();
+    futures_util::stream::unfold(
+        (receiver, last_seq, backlog, stream_id, reload),
+        |(mut receiver, mut last_seq, mut backlog, stream_id, reload)| async move {
+            loop {
+                let event = match backlog.pop_front() {
+                    Some(event) => event,
+                    None => match receiver.recv().await {
+                        Ok(event) => event,
+                        Err(RecvError::Lagged(_)) => {
+                            backlog = reload().await.into();
+                            continue;
+                        }
+                        Err(RecvError::Closed) => return None,
+                    },
+                };
+                if let Some(id) = stream_id.as_deref() {
+                    if event.session_id != id {
+                        continue;
+                    }
+                }
+                if last_seq.map(|last| event.seq <= last).unwrap_or(false) {
+                    continue;
+                }
+                let Ok(json) = serde_json::to_string(&event) else {
+                    continue;
+                };
+                last_seq = Some(event.seq);
+                let item = Ok::<SseEvent, Infallible>(SseEvent::default().data(json));
+                return Some((item, (receiver, last_seq, backlog, stream_id, reload)));
+            }
+        },
+    )
+}
 
 #[derive(Clone)]
 pub(crate) struct AppState {
@@ -564,21 +615,10 @@ async fn stream_events(
         Some(Ok::<SseEvent, Infallible>(SseEvent::default().data(json)))
     });
 
-    let last_seq_live = last_seq;
-    let live_stream = BroadcastStream::new(receiver).filter_map(move |result| {
-        let last_seq = last_seq_live;
-        async move {
-            match result {
-                Ok(event) => {
-                    if last_seq.map(|last| event.seq <= last).unwrap_or(false) {
-                        return None;
-                    }
-                    let json = serde_json::to_string(&event).ok()?;
-                    Some(Ok::<SseEvent, Infallible>(SseEvent::default().data(json)))
-                }
-                Err(_) => None,
-            }
-        }
+    let history = handle.clone();
+    let live_stream = live_frames_after(receiver, last_seq, None, move || {
+        let history = history.clone();
+        async move { history.events_snapshot().await }
     });
 
     let stream = past_stream.chain(live_stream);
@@ -1296,26 +1336,11 @@ async fn thread_stream_events(
         Some(Ok::<SseEvent, Infallible>(SseEvent::default().data(json)))
     });
 
-    let thread_id_live = thread_id.clone();
-    let last_seq_live = last_seq;
-    let live_stream = BroadcastStream::new(receiver).filter_map(move |result| {
-        let last_seq = last_seq_live;
-        let thread_id = thread_id_live.clone();
-        async move {
-            match result {
-                Ok(event) => {
-                    if event.session_id != thread_id {
-                        return None;
-                    }
-                    if last_seq.map(|last| event.seq <= last).unwrap_or(false) {
-                        return None;
-                    }
-                    let json = serde_json::to_string(&event).ok()?;
-                    Some(Ok::<SseEvent, Infallible>(SseEvent::default().data(json)))
-                }
-                Err(_) => None,
-            }
-        }
+    let history = store.clone();
+    let history_id = thread_id.clone();
+    let live_stream = live_frames_after(receiver, last_seq, Some(thread_id.clone()), move || {
+        let events = history.replay_events(&history_id).unwrap_or_default();
+        async move { events }
     });
 
     let stream = past_stream.chain(live_stream);
@@ -1475,21 +1500,10 @@ async fn stream_task_events(
         Some(Ok::<SseEvent, Infallible>(SseEvent::default().data(json)))
     });
 
-    let last_seq_live = last_seq;
-    let live_stream = BroadcastStream::new(receiver).filter_map(move |result| {
-        let last_seq = last_seq_live;
-        async move {
-            match result {
-                Ok(event) => {
-                    if last_seq.map(|last| event.seq <= last).unwrap_or(false) {
-                        return None;
-                    }
-                    let json = serde_json::to_string(&event).ok()?;
-                    Some(Ok::<SseEvent, Infallible>(SseEvent::default().data(json)))
-                }
-                Err(_) => None,
-            }
-        }
+    let history = handle.clone();
+    let live_stream = live_frames_after(receiver, last_seq, None, move || {
+        let history = history.clone();
+        async move { history.events_snapshot().await }
     });
 
     let stream = past_stream.chain(live_stream);
